@@ -1,5 +1,10 @@
 package queues
 
+import (
+	"reflect"
+	"unsafe"
+)
+
 // White-box accessors for the container differential (added through the build overlay only;
 // never part of /repo).
 
@@ -31,4 +36,30 @@ func VerifPQShape[T any](q *PriorityQueue[T]) [][2]int {
 	return out
 }
 
-func VerifPQInsertionCount[T any](q *PriorityQueue[T]) int { return q.insertionCount }
+// VerifPQInsertionCount reads the tie-break counter whatever its representation is (plain integer or an
+// atomic type with a Load method); -1 when there is no such field any more.
+func VerifPQInsertionCount[T any](q *PriorityQueue[T]) int {
+	f := reflect.ValueOf(q).Elem().FieldByName("insertionCount")
+	if !f.IsValid() {
+		return -1
+	}
+	switch f.Kind() {
+	case reflect.Int, reflect.Int8, reflect.Int16, reflect.Int32, reflect.Int64:
+		return int(f.Int())
+	case reflect.Uint, reflect.Uint8, reflect.Uint16, reflect.Uint32, reflect.Uint64:
+		return int(f.Uint())
+	}
+	if f.CanAddr() {
+		m := reflect.NewAt(f.Type(), unsafe.Pointer(f.UnsafeAddr())).MethodByName("Load")
+		if m.IsValid() && m.Type().NumIn() == 0 && m.Type().NumOut() == 1 {
+			r := m.Call(nil)[0]
+			switch r.Kind() {
+			case reflect.Int, reflect.Int8, reflect.Int16, reflect.Int32, reflect.Int64:
+				return int(r.Int())
+			case reflect.Uint, reflect.Uint8, reflect.Uint16, reflect.Uint32, reflect.Uint64:
+				return int(r.Uint())
+			}
+		}
+	}
+	return -1
+}
